@@ -788,7 +788,7 @@ def gen_graph(rng: random.Random, prop: str) -> dict:
             else:
                 pid = rng.choice([7200, 7201] if std else [6200, 6201, 6202])
             if rng.random() < 0.08 and not clean:
-                pid = rng.choice([100, 5, 9000, 600])
+                pid = rng.choice([100, 5, 9000, 600, 0, 0, 511, 512, 8191, 8192, 1])
         key = (tuple(d), tuple(sub), short, ma, mi)
         if key in used:
             continue
@@ -1008,7 +1008,7 @@ def gen_names(rng: random.Random, prop: str) -> dict:
         if x < 0.82:
             short = rng.choice(SHORTS + ["Bc_d9", "_x", "Zz"])
             ma, mi = rng.choice(VERSIONS + [(255, 255), (10, 20), (0, 255)])
-            pid = rng.choice([None, None, None, 6200, 6201, 7000, 6144, 7167])
+            pid = rng.choice([None, None, None, 6200, 6201, 7000, 6144, 7167, 0, 0, 1, 8191, 8192])
             if d[-1] == "uavcan" and pid is not None:
                 pid = rng.choice([7168, 7200, 8191])
             fn = fname_of(short, ma, mi, pid, rng.choice(["dsdl", "dsdl", "dsdl", "uavcan"]))
